@@ -14,6 +14,27 @@ CHECKS = {
         design_ref="DESIGN.md §4 C10",
         note="Trusts core.get_charnos for the ranges the scheduler sees (span correctness is C13) and Python's ast.parse as the validity judge; implicit transactions are ordered by yield position.",
     ),
+    "C12": dict(
+        technique="runtime differential monitor: the real matcher (match_template / finditer) runs beside an independent, complete reference matcher working from the pattern string; bounded exhaustive enumeration of quantifier lists + patterns abstracted from real code + self-match",
+        category="exploration",
+        text="All list templates up to length 3 (4 thorough) over 11 element kinds x all element sequences up to length 5 in four list contexts are enumerated completely and every (template, sequence) verdict of the real matcher is compared with the reference; finditer's occurrence set is compared with the reference search for patterns abstracted from repository examples and standard-library files (single nodes and statement sequences, with planted repeated wildcards and a fixed hostile set); every statement/expression of the corpus must match the template compiled from its own text. Held on the pairs observed; exhaustive only for the stated bound.",
+        design_ref="DESIGN.md §4 C12",
+        note="The reference adopts the pinned tests' reading of named quantified wildcards (all repetitions print identically); wildcards only in positions the pattern compiler supports; ASCII sources (spans are C13's).",
+    ),
+    "C13": dict(
+        technique="runtime post-condition monitor on every Match object + literal API relations + CLI subprocess, against an independent span computation (UTF-8 byte columns, tokenizer line splitting, decorators)",
+        category="exploration",
+        text="Every Match produced by finditer over hostile layout variants of real sources (non-ASCII before the match, CRLF/CR, form feeds, unicode line separators in literals and comments, tabs, no trailing newline, indented fragments, decorated/multi-line nodes) is checked for range, string == slice, slice == complete node text, line/column; findall/search/match/fullmatch are compared literally with finditer; the command-line finder is run as a subprocess and its printed locations compared.",
+        design_ref="DESIGN.md §4 C13",
+        note="Complete node text = ast.get_source_segment semantics extended to decorators; lines split as Python's tokenizer does; result order is not part of C13 (see C06).",
+    ),
+    "C14": dict(
+        technique="runtime monitor: subn() observed through the scheduler log (applied set) and compared with an AST-level reference substitution (tree substitution of bindings, rebuilt module tree); line-level and ignore-comment post-conditions; CLI replace subprocess",
+        category="exploration",
+        text="For generated and hostile (pattern, replacement, source, count) tuples: no occurrence => byte-identical result; every rewritten range is a reference occurrence; no occurrence is skipped without a permitted reason; count bounds the replacements; the result tree equals the source tree with exactly the applied matches replaced by the tree-instantiated template; untouched lines and ignore-comment lines survive verbatim; sub(p, p, s) preserves the tree; the CLI writes what sub returns.",
+        design_ref="DESIGN.md §4 C14",
+        note="Which of several overlapping occurrences wins is left open (read from the scheduler log); trees compared after an unparse/parse round trip; a pass whose candidate does not parse is a rollback (C10).",
+    ),
 }
 
 NOT_YET = {}
